@@ -117,7 +117,8 @@ def alpha_cfg(draw, kinds, assets, long_only):
         keys = [a for a in assets if draw(st.sampled_from([True, True, True, False]))]
         return {'kind': 'fixed', 'weights': {a: weight_value(draw, long_only) for a in keys}}
     if k == 'hist':
-        return {'kind': 'hist', 'lookback': draw(st.sampled_from([2, 5, 9, 20]))}
+        return {'kind': 'hist', 'lookback': draw(st.sampled_from([2, 5, 9, 20])), 'via_handler': draw(st.booleans()),
+                'tz': draw(st.sampled_from([None, None, 'Asia/Tokyo', 'America/New_York']))}
     if k == 'cycle':
         n = draw(st.sampled_from([2, 2, 3]))
         return {'kind': 'cycle', 'vectors': [{a: weight_value(draw, long_only) for a in assets} for _ in range(n)]}
